@@ -105,7 +105,9 @@ int main(int argc, char** argv) {
 	std::vector<int> ds_ids = small ? all6 : (th ? std::vector<int>{ 0, 5 } : std::vector<int>{ 5 });   // full: compiled initialiser (and interpreted in thorough)
 
 	if (!args.replay.empty()) {
-		vf::Json r = vf::Json::load(args.replay); World w; auto kb = vf::unhex(r.at("key").s); w.key.assign((const char*)kb.data(), kb.size());
+		vf::Json r = vf::Json::load(args.replay);
+		if (r.has("nonce_sweep")) { World w; auto kb = vf::unhex(r.at("key").s); w.key.assign((const char*)kb.data(), kb.size()); std::string d = w.build({ 3 }, { 3 }, 1); if (d.empty()) d = w.make_vms({ 3 }, { 3 }); auto ib = vf::unhex(r.at("input").s); vf::Result R; if (d.empty()) d = check_case(w, std::string((const char*)ib.data(), ib.size()), r.at("v2").b, R, false); printf("replay: %s\n", d.empty() ? "all configurations agree" : d.c_str()); return d.empty() ? 0 : 1; }
+		World w; auto kb = vf::unhex(r.at("key").s); w.key.assign((const char*)kb.data(), kb.size());
 		std::string d = w.build(all6, ds_ids, small ? 1 : 16); if (d.empty()) d = w.make_vms(all6, ds_ids);
 		w.sc.p = P(); w.sc.init(w.key.data(), w.key.size());
 		auto ib = vf::unhex(r.at("input").s); vf::Result R;
@@ -158,10 +160,29 @@ int main(int argc, char** argv) {
 			if (args.expired()) { total.incomplete = true; break; }
 		}
 	}
+	// nonce sweep: what a miner does - one key, inputs that differ in a counter - on the 12 flag sets of one cache configuration, both versions. A disagreement
+	// between engines that needs a coincidence inside a program (seeded change agent8_C01: two address registers with equal low halves, 1e-4 per program at
+	// this geometry) shows with a rate; the sweep makes the number of hashed programs large (8 per hash) instead of waiting for the key/input alphabet to hit it.
+	if (small && args.replay.empty() && !LP) {   // not repeated in the LARGE_PAGES part
+		const unsigned long NN = th ? 200000 : 16000; const int NSH = 32;
+		vf::Result rn = vf::run_shards(args, NSH, [&](int shard) {
+			vf::Result R; World w; w.key = "nonce sweep key";
+			std::string d = w.build({ 3 }, { 3 }, 1); if (d.empty()) d = w.make_vms({ 3 }, { 3 });
+			if (!d.empty()) { vf::Violation v; v.key = "c01:setup"; v.what = d; v.replay = case_json(w.key, "", false); R.viol.push_back(v); return R; }
+			for (unsigned long n = (unsigned long)shard; n < NN; n += NSH) for (int v2 = 0; v2 < 2; ++v2) {
+				std::string in(8, '\0'); for (int b = 0; b < 8; ++b) in[(size_t)b] = (char)((n >> (8 * b)) & 0xFF); in += "blob";
+				if ((n & 255) == (unsigned long)shard % 256) vf::set_current(case_json(w.key, in, v2).dump());
+				d = check_case(w, in, v2, R, false); R.n["nonce_sweep_hashes"] += w.vms.size();
+				if (!d.empty()) { vf::Violation v; v.key = "c01:disagree"; v.what = "nonce sweep, input counter " + std::to_string(n) + (v2 ? " v2: " : " v1: ") + d; v.replay = case_json(w.key, in, v2).set("nonce_sweep", true); R.viol.push_back(v); if (R.viol.size() >= 3) return R; }
+			}
+			return R;
+		}, true, 3600);
+		total.merge(rn);
+	}
 	vf::Evidence ev; ev.level = "exploration";
 	ev.coverage.set("evaluations", (unsigned long long)total.n["hashes"]).set("distinct_nontrivial", (unsigned long long)total.n["cases"])
 		.set("exhaustive", !total.incomplete)
-		.set("rule", std::string("profile ") + RX_PROFILE + ": every (key,input,version) of the alphabets is hashed by every configuration of the lattice (light flag sets x 8 cache configurations incl. both Argon2 bits set, fast flag sets x datasets built by the compiled/interpreted initialiser of those caches; for v2 every configuration twice: a VM created with RANDOMX_FLAG_V2 and a VM switched to v2 after creation); all digests must be equal and equal to the specification model. evaluations = hashes, distinct = (key,input,version) cases; configurations per case in counters")
+		.set("rule", std::string("profile ") + RX_PROFILE + ": every (key,input,version) of the alphabets is hashed by every configuration of the lattice (light flag sets x 8 cache configurations incl. both Argon2 bits set, fast flag sets x datasets built by the compiled/interpreted initialiser of those caches; for v2 every configuration twice: a VM created with RANDOMX_FLAG_V2 and a VM switched to v2 after creation); all digests must be equal and equal to the specification model. reduced geometry also: a nonce sweep (one key, 16000 / thorough 200000 counter inputs x both versions) over the 12 flag sets of the JIT cache configuration; evaluations = hashes, distinct = (key,input,version) cases; configurations per case in counters")
 		;
 #ifdef RX_LARGEPAGES
 	ev.assumptions = { "this part runs every cache, dataset and VM with RANDOMX_FLAG_LARGE_PAGES; the sandbox has no huge pages, so the harness-owned mmap answers MAP_HUGETLB requests with ordinary pages (the library's large-page classes and allocator code are the real ones)" };
